@@ -119,7 +119,10 @@ def shrink_failure(mod, pid, bdir, model, case, mode, rounds=6, sig=None):
         if not f0:
             return case
         sig = _sig(f0[0][2])
+    t_start = time.time()
     for _ in range(rounds):
+        if time.time() - t_start > 90:      # shrinking is a convenience; never let it dominate a failing run
+            break
         cands = mod.shrink(cur)
         if not cands:
             break
